@@ -511,8 +511,31 @@ func scenarioHist(t *traceWriter, rng *rand.Rand) {
 			plain[ls] = ls.l.key.verif
 		}
 		n := 1 + rng.Intn(maxLen)
+		type pastReq struct {
+			old   uint64
+			cp    []byte
+			proof [][]byte
+			from  *logState
+		}
+		var past []pastReq
 		for i := 0; i < n; i++ {
 			ls := lss[rng.Intn(len(lss))]
+			if len(past) > 0 && rng.Intn(8) == 0 {
+				// replay bytes this witness has already seen, under the same or another configured log's ID
+				pr := past[rng.Intn(len(past))]
+				target := lss[rng.Intn(len(lss))]
+				cls := "replay.same"
+				if target != pr.from {
+					cls = "replay.crossLog"
+				}
+				old := pr.old
+				if rng.Intn(2) == 0 && target.has {
+					old = target.curSize
+				}
+				res := s.update(target.l.id, old, pr.cp, pr.proof, "class="+cls)
+				target.observe(res, plain[target])
+				continue
+			}
 			if rng.Intn(25) == 0 { // unknown log id, or a checkpoint filed under another configured log's id
 				old, cp, proof, _ := w.genRequest(ls)
 				id := s.unknownIDs[0]
@@ -530,6 +553,7 @@ func scenarioHist(t *traceWriter, rng *rand.Rand) {
 			old, cp, proof, class := w.genRequest(ls)
 			res := s.update(ls.l.id, old, cp, proof, "class="+class)
 			ls.observe(res, plain[ls])
+			past = append(past, pastReq{old, cp, proof, ls})
 		}
 		// honest probes: an honest log can always move the witness forward (C08)
 		for _, ls := range lss {
